@@ -118,7 +118,15 @@ def call_gs(inst, oriented, zero_indexed, dtype=None, ctx=None):
         rule = ctx["rules"][key]
     else:
         rule = GaleShapley(resident_oriented=oriented, zero_indexed=zero_indexed)
-    out = rule.scf(StrictProfile.of(R), StrictProfile.of(H), c)
+    pr, ph = StrictProfile.of(R), StrictProfile.of(H)
+    if ctx is not None and ctx["rng"].random() < 0.3:
+        # the very same argument objects are first handed to a call in the OTHER orientation: what an earlier call did with
+        # its arguments must not leak into a later one
+        try:
+            GaleShapley(resident_oriented=not oriented, zero_indexed=zero_indexed).scf(pr, ph, c)
+        except Exception:  # noqa
+            pass
+    out = rule.scf(pr, ph, c)
     return [[int(a), int(b)] for a, b in out]
 
 
